@@ -16,10 +16,18 @@ import VaxisModel.Spec.Surface
     (`fill` = common style of the cells with empty grapheme, `x` if mixed, `-` if none; `cells` = the
     others as `i=g.w.st` joined by `,`, `-` if none) or `panic:explicit` / `panic:runtime`.
 
-`render SWxSH <nodes>` — paint a hand-built surface tree on a SW×SH screen. nodes as above but
+`render SWxSH <nodes>` — paint a hand-built surface tree as the root surface of a frame on a SW×SH
+    screen prefilled with a sentinel, through the hook `VerifC14RenderRoot` (the render call of
+    App.Run: `s.render(win.New(0,0,W,H), …)`); model `renderClipped`. nodes as above but
     `depth:col:row:z:w:h:len:cells` (len = buffer length) with the whole buffer `g.w.st,…` (`-` = empty;
     `g.w.st*N` = a run of N equal cells).
     impl / model: changed screen cells `x,y,g,w,st` in (y,x) order (`-` if none) or `panic`.
+`run SWxSH <nodes>` — the same tree returned by the root widget of a real `App.Run` on a SW×SH fake
+    console; one frame; model `runFrame` (`win.Clear()` then `renderRoot`, whose window is read from
+    the source).  impl / model: the screen cells that are not the blank cell, same format.
+`bare SWxSH <nodes>` — the bare recursive `s.render(win, …)` into the whole screen window (hook
+    `VerifC14Render`); model `render`; oracle: the painter's algorithm without the root's own clip
+    (the clip of the surface passed in is the caller's window).
 
 Verdicts are the C14 oracle (`Spec.Surface`) on the implementation's result only. -/
 namespace VaxisModel.Driver.C14
@@ -235,7 +243,22 @@ def diffCells (s : Screen) : List (Int × Int × Cell) :=
 def wellFormed : List (Node × List Cell) → Bool
   | l => l.all fun (n, b) => b.length = n.w * n.h
 
-def renderStep (dims : String) (nodesStr : String) (impl : String) : String :=
+inductive Entry where
+  | root    -- hook VerifC14RenderRoot on a sentinel screen
+  | run     -- a frame of the real App.Run
+  | bare    -- hook VerifC14Render on a sentinel screen
+deriving DecidableEq
+
+def blankScreen (sw sh : Int) : Screen :=
+  { cols := sw, rows := sh, buf := List.replicate sh.toNat (List.replicate sw.toNat clearCell) }
+
+def nonBlank (s : Screen) : List (Int × Int × Cell) :=
+  (upTo s.rows).flatMap fun y => (upTo s.cols).filterMap fun x =>
+    match s.get x y with
+    | some c => if c = clearCell then none else some (x, y, c)
+    | none => none
+
+def renderStep (e : Entry) (dims : String) (nodesStr : String) (impl : String) : String :=
   match (dims.splitOn "x").map (·.toInt?), (nodesStr.splitOn ";").mapM (fun s => do
       let n ← parseNode? s
       let b ← parseBuf? n.rest
@@ -244,18 +267,26 @@ def renderStep (dims : String) (nodesStr : String) (impl : String) : String :=
     match buildTrees nodes 0 with
     | ([(_, _, _, s)], [t], []) =>
       let scr := startScreen sw sh
-      let mc := match render s (Win.ofScreen scr) scr with
-        | .error _ => "panic"
-        | .ok scr' => cellsStr (diffCells scr')
+      let mc := match e with
+        | .root => (match renderClipped s (Win.ofScreen scr) scr with
+            | .error _ => "panic"
+            | .ok scr' => cellsStr (diffCells scr'))
+        | .bare => (match render s (Win.ofScreen scr) scr with
+            | .error _ => "panic"
+            | .ok scr' => cellsStr (diffCells scr'))
+        | .run => (match runFrame s (blankScreen sw sh) with
+            | .error _ => "panic"
+            | .ok scr' => cellsStr (nonBlank scr'))
       let verdict :=
         if !wellFormed nodes then "-"
         else if impl = "panic" then "FAIL panic: render panicked on a well-formed surface tree"
         else
-          let want := cellsStr (Spec.Surface.expectedPaint true t sw sh)
-          if impl = want then "ok"
-          else if impl = cellsStr (Spec.Surface.expectedPaint false t sw sh) then
-            s!"FAIL rootclip: children of the root are painted outside the root surface: got {impl} want {want}"
-          else s!"FAIL paint: got {impl} want {want}"
+          -- the property: every surface, the root included, is clipped to its parent / itself;
+          -- the bare recursive render leaves the clip of the surface passed in to its caller
+          let exp := Spec.Surface.expectedPaint (e != .bare) t sw sh
+          let exp := if e = .run then exp.filter (fun (_, _, c) => c ≠ clearCell) else exp
+          let want := cellsStr exp
+          if impl = want then "ok" else s!"FAIL paint: got {impl} want {want}"
       s!"{mc}\t{impl}\t{verdict}"
     | _ => "bad-op\tbad-op\tbad-op"
   | _, _ => "bad-op\tbad-op\tbad-op"
@@ -274,7 +305,9 @@ def step (line : String) : String :=
       let ctx : Ctx := { minW := UInt16.ofNat a, minH := UInt16.ofNat b, maxW := UInt16.ofNat c, maxH := UInt16.ofNat d }
       s!"{drawModel ctx w}\t{impl}\t{drawVerdict ctx w impl}"
     | _, _ => "bad-op\tbad-op\tbad-op"
-  | ["render", dims, nodes] => renderStep dims nodes impl
+  | ["render", dims, nodes] => renderStep .root dims nodes impl
+  | ["run", dims, nodes] => renderStep .run dims nodes impl
+  | ["bare", dims, nodes] => renderStep .bare dims nodes impl
   | _ => "bad-op\tbad-op\tbad-op"
 
 def main : IO Unit := lineLoop step
